@@ -371,13 +371,17 @@ func checkC14(r *Run) {
 		r.sample(map[string]interface{}{"request": g.name, "runs": runs, "shuffled_configs": shuffles, "sha256": sha(g.cases[0].Plugin.Stdout),
 			"yaml_original": g.cases[0].YAML, "yaml_shuffled": g.cases[runs].YAML, "param_shuffled": g.cases[runs].Param})
 	}
-	if r.thorough() {
+	{
+		// the race-instrumented plugin (all requests in the thorough tier, a few in the quick tier)
 		if _, err := r.WS.BuildPlugin("race"); err != nil {
 			r.Inconclusive = append(r.Inconclusive, err.Error())
 			return
 		}
 		var rc []*pipeline.Case
 		for gi, g := range groups {
+			if !r.thorough() && gi >= 3 {
+				break
+			}
 			for k := 0; k < 3; k++ {
 				d := *g.cases[0]
 				d.PluginVariant = "race"
@@ -830,7 +834,7 @@ func init() {
 		Check:     checkC12})
 	register(&Property{ID: "C14", Level: "exploration",
 		Technique: "runtime monitoring: sha256 of repeated plugin process runs (plain and -race builds)",
-		Rule:      "requests = curated descriptors with rich configurations (maps in every option) + seeded random descriptors x configurations; per request R identical process runs (Go randomises map iteration per process) plus S runs with the YAML keys, the set-like lists and the `+`-separated lists permuted and options moved between channels; oracle: one sha256 over all responses of a request; thorough: the requests also go through the -race build with GOMAXPROCS 1/2/16, race reports are counted and reported, only differing hashes decide; distinct = distinct requests",
+		Rule:      "requests = curated descriptors with rich configurations (maps in every option) + seeded random descriptors x configurations; per request R identical process runs (Go randomises map iteration per process) plus S runs with the YAML keys, the set-like lists and the `+`-separated lists permuted and options moved between channels; oracle: one sha256 over all responses of a request; the requests (three of them in the quick tier, all in the thorough tier) also go through the -race build with GOMAXPROCS 1/2/16: race reports are counted and reported, only differing hashes decide; distinct = distinct requests",
 		Check:     checkC14})
 	register(&Property{ID: "C16", Level: "exploration",
 		Technique: "runtime monitoring: byte comparison of plugin outputs across delivery channels + exit status of error cases",
